@@ -553,6 +553,8 @@ def monitor_real(c, t, lines, line, ctx, st):
             if not eligible:
                 st["MX_ineligible"] += 1
             bad = [k_ for k_ in ("elig", "choice", "bdraws", "exc") if d.get(k_) != exp[k_]]
+            if route == "cfg" and not use and d.get("elig") == "-" and "elig" in bad:
+                bad.remove("elig")  # a disabled anthropogenic kernel need not exist (create_dynamic_kernel passes none)
             if bad:
                 ctx.violation("C13.mix.real_kernels", "mix of real kernels (%s route, anthropogenic %s, stochasticity %s) at %s: enabled=%d, the cell %s network node, "
                               "p_natural=%g u=%g: %s, expected %s (%s)"
@@ -771,7 +773,7 @@ def run_engine(ctx, cases_path):
     impl = os.path.join(ctx.work, "impl.out")
     ncases = len(vc.read_cases(cases_path))
     start, parts, aborted = 0, [], []
-    for attempt in range(8):
+    for attempt in range(40):
         part = impl + ".part%d" % attempt
         rc, e = vc.run_to_file([h, cases_path, str(start)], part)
         parts.append(part)
@@ -796,6 +798,9 @@ def run_engine(ctx, cases_path):
                 if line.split(" ", 1)[0].isdigit() and int(line.split(" ", 1)[0]) not in ab:
                     f.write(line)
     ctx.harness_aborts = aborted
+    # cases the harness never reached (it kept aborting): not judged by the monitor
+    done = set(group_output(impl))
+    ctx.harness_unrun = set(k for k in range(ncases) if k not in done and k not in ab)
     # the generated tables may have been rewritten by a concurrent check of another tree
     tp = vc.run([os.sys.executable, os.path.join(vc.VERIF, "translate", "kernel_tables.py"), vc.REPO,
                  os.path.join(vc.COQ, "theories")], timeout=120)
@@ -862,10 +867,15 @@ def check(ctx, replay=None):
         t = cases[k].split()
         kn = t[2] if t[0] == "RF" else (t[1] if t[0] in ("R", "K") else (t[4] if t[0] == "G" else (t[5] if t[0] == "GF" else t[0])))
         last = [l for l in e.strip().split("\n") if l.strip()][-3:]
-        ctx.violation(LAW_KEY.get(kn, "C13.run." + kn) + ".abort", "the library aborted (exit %d) on this case: %s" % (rc, " | ".join(last)[:300]),
+        key = LAW_KEY.get(kn, "C13.run." + kn)
+        if t[0] == "MX":
+            key = "C13.mix.real_kernels"
+        elif t[0] in ("SW", "SS", "KE", "FE"):
+            key = "C13.switch.run"
+        ctx.violation(key + ".abort", "the library aborted (exit %d) on this case: %s" % (rc, " | ".join(last)[:300]),
                       cases[k], e)
         out[k] = ["aborted"]
-    stats = monitor(cases, out, ctx, skip=set(a[0] for a in getattr(ctx, "harness_aborts", [])))
+    stats = monitor(cases, out, ctx, skip=set(a[0] for a in getattr(ctx, "harness_aborts", [])) | getattr(ctx, "harness_unrun", set()))
     ncmp, diffs = 0, []
     if model is not None:
         ncmp, diffs = vc.diff_outputs(impl, model, relevant)
